@@ -309,6 +309,27 @@ Proof.
   apply Nat.ltb_lt in H. rewrite H. reflexivity.
 Qed.
 
+Lemma of_le_len2_lt : forall buf, length buf = 2%nat -> bytes_ok buf -> of_le buf < 65536.
+Proof.
+  intros buf Hl Hb. destruct buf as [|a [|b0 [|? ?]]]; try discriminate Hl.
+  inversion Hb as [|? ? Ha Hb']; subst. inversion Hb' as [|? ? Hb0 _]; subst.
+  apply of_le2_lt; assumption.
+Qed.
+
+Lemma p_extra_full2 : forall buf e Y, length buf = 2%nat -> N.to_nat (of_le buf) = length e ->
+  p_extra true (buf ++ e ++ Y) = inl (e, Y).
+Proof.
+  intros buf e Y Hl H. destruct buf as [|a [|b0 [|? ?]]]; try discriminate Hl.
+  cbn [app]. apply p_extra_gen. exact H.
+Qed.
+
+Lemma p_extra_short2' : forall buf data, length buf = 2%nat ->
+  (length data < N.to_nat (of_le buf))%nat -> p_extra true (buf ++ data) = inr CUnexpectedEOF.
+Proof.
+  intros buf data Hl H. destruct buf as [|a [|b0 [|? ?]]]; try discriminate Hl.
+  cbn [app]. apply p_extra_short2. exact H.
+Qed.
+
 Lemma rh_extra_spec : ioReadFull_spec_statement -> crc32_update_app_statement ->
   forall flg z hdr, buf_ok (z_r z) -> bytes_ok (bstream (z_r z)) ->
   forall z' hdr' e, rh_extra flg z hdr = (z', hdr', e) ->
@@ -325,27 +346,25 @@ Proof.
   change flagExtra with 2 in H. destruct (N.testbit flg 2).
   - destruct (ioReadFull (z_r z) 2) as [[buf e1] b1] eqn:E1.
     destruct (rf_adv HRF z 2 Hok eq_refl _ _ _ E1) as (A1 & Hr1).
+    assert (Hs1 : bstream (z_r z) = buf ++ bstream b1) by apply A1.
     destruct Hr1 as [[-> Hlen]|(Hr & Hlt & Hnil & _)].
     + (* two length bytes *)
       change (N.to_nat 2) with 2%nat in Hlen.
-      destruct buf as [|a [|b0 [|? ?]]]; try discriminate Hlen. clear Hlen.
-      assert (Hs1 : bstream (z_r z) = [a; b0] ++ bstream b1) by apply A1.
-      assert (Hab : a < 256 /\ b0 < 256).
-      { rewrite Hs1 in Hby. inversion Hby as [|? ? Ha Hby']; subst.
-        inversion Hby' as [|? ? Hb _]; subst. split; assumption. }
-      pose proof (of_le2_lt a b0 (proj1 Hab) (proj2 Hab)) as Hn.
+      assert (Hbb : bytes_ok buf).
+      { rewrite Hs1 in Hby. apply Forall_app in Hby. apply Hby. }
+      pose proof (of_le_len2_lt buf Hlen Hbb) as Hn.
       cbv zeta in H.
-      set (z1 := gz_set_digest (gz_set_r z b1) (crc32_update (z_digest (gz_set_r z b1)) [a; b0])) in *.
-      assert (A1' : adv z z1 [a; b0]) by (apply adv_set_digest; exact A1).
-      assert (Hd1 : z_digest z1 = crc32_update (z_digest z) [a; b0]) by reflexivity.
+      set (z1 := gz_set_digest (gz_set_r z b1) (crc32_update (z_digest (gz_set_r z b1)) buf)) in *.
+      assert (A1' : adv z z1 buf) by (apply adv_set_digest; exact A1).
+      assert (Hd1 : z_digest z1 = crc32_update (z_digest z) buf) by reflexivity.
       assert (Hb1 : bstream (z_r z1) = bstream b1) by reflexivity.
       clearbody z1.
-      destruct (ioReadFull (z_r z1) (of_le [a; b0])) as [[data e2] b2] eqn:E2.
-      destruct (rf_adv HRF z1 (of_le [a; b0]) (proj1 A1') (N.lt_trans _ 65536 262144 Hn eq_refl)
+      destruct (ioReadFull (z_r z1) (of_le buf)) as [[data e2] b2] eqn:E2.
+      destruct (rf_adv HRF z1 (of_le buf) (proj1 A1') (N.lt_trans _ 65536 262144 Hn eq_refl)
                   _ _ _ E2) as (A2 & Hr2).
       assert (Hs2 : bstream (z_r z1) = data ++ bstream b2) by apply A2.
       pose proof (adv_trans _ _ _ _ _ A1' A2) as A.
-      exists ([a; b0] ++ data).
+      exists (buf ++ data).
       destruct Hr2 as [[-> Hlen2]|(Hr2 & Hlt2 & Hnil2 & _)].
       * inversion H; subst. clear H. split; [apply adv_set_digest; exact A|].
         split.
@@ -353,7 +372,7 @@ Proof.
            ++ cbn [z_digest gz_set_digest gz_set_r]. rewrite Hd1. apply HCRC.
            ++ exists data. cbn [z_r gz_set_digest gz_set_r].
               split; [|split; [reflexivity|discriminate]].
-              rewrite Hs1, <- Hb1, Hs2. cbn [app]. apply p_extra_gen. symmetry. exact Hlen2.
+              rewrite Hs1, <- Hb1, Hs2. apply p_extra_full2; [exact Hlen|]. symmetry. exact Hlen2.
         -- split; [intros C; exfalso; apply C; reflexivity|].
            unfold no_bad. repeat split; discriminate.
       * destruct (no_bad_noEOF e2 Hr2) as [NB NE].
@@ -362,14 +381,13 @@ Proof.
         inversion H'; subst. clear H H'.
         split; [exact A|]. split; [intros C; exfalso; apply NE; exact C|].
         split; [|exact NB]. intros _. exists CUnexpectedEOF.
-        rewrite Hs1, <- Hb1, Hs2, Hnil2, app_nil_r. cbn [app]. apply p_extra_short2. exact Hlt2.
+        rewrite Hs1, <- Hb1, Hs2, Hnil2, app_nil_r. apply p_extra_short2'; assumption.
     + destruct (no_bad_noEOF e1 Hr) as [NB NE].
       assert (H' : (gz_set_r z b1, hdr, noEOF (GR e1)) = (z', hdr', e)).
       { destruct Hr as [->|[->| ->]]; exact H. }
       inversion H'; subst. clear H H'.
       exists buf. split; [exact A1|]. split; [intros C; exfalso; apply NE; exact C|].
       split; [|exact NB]. intros _. exists CUnexpectedEOF.
-      assert (Hs1 : bstream (z_r z) = buf ++ bstream b1) by apply A1.
       rewrite Hs1, Hnil, app_nil_r. apply p_extra_short. exact Hlt.
   - inversion H; subst. clear H. exists []. split; [apply adv_refl; assumption|].
     split.
@@ -377,3 +395,285 @@ Proof.
     + split; [intros C; exfalso; apply C; reflexivity|].
       unfold no_bad. repeat split; discriminate.
 Qed.
+
+(* ---------------------------------------------------------------- FHCRC *)
+Lemma firstn_len_app' : forall (A : Type) n (a b : list A), length a = n -> firstn n (a ++ b) = a.
+Proof. intros; subst; apply firstn_len_app. Qed.
+Lemma skipn_len_app' : forall (A : Type) n (a b : list A), length a = n -> skipn n (a ++ b) = b.
+Proof. intros; subst; apply skipn_len_app. Qed.
+
+Lemma rh_hcrc_spec : ioReadFull_spec_statement ->
+  forall flg z hdr, buf_ok (z_r z) ->
+  forall z' hdr' e, rh_hcrc flg z hdr = (z', hdr', e) ->
+  exists used, adv z z' used /\ z_digest z' = z_digest z /\
+    (e = GR ROk -> hdr' = hdr /\
+       if N.testbit flg 1
+       then (length (bstream (z_r z)) <? 2)%nat = false /\
+            (of_le (firstn 2 (bstream (z_r z))) =? z_digest z mod 65536) = true /\
+            bstream (z_r z') = skipn 2 (bstream (z_r z))
+       else bstream (z_r z') = bstream (z_r z)) /\
+    (e <> GR ROk -> N.testbit flg 1 = true /\
+       ((length (bstream (z_r z)) <? 2)%nat = true \/
+        (of_le (firstn 2 (bstream (z_r z))) =? z_digest z mod 65536) = false)) /\
+    no_bad e.
+Proof.
+  intros HRF flg z hdr Hok z' hdr' e H. unfold rh_hcrc in H.
+  change flagHdrCrc with 1 in H. destruct (N.testbit flg 1).
+  - destruct (ioReadFull (z_r z) 2) as [[buf e1] b1] eqn:E1.
+    destruct (rf_adv HRF z 2 Hok eq_refl _ _ _ E1) as (A1 & Hr1).
+    assert (Hs1 : bstream (z_r z) = buf ++ bstream b1) by apply A1.
+    exists buf.
+    destruct Hr1 as [[-> Hlen]|(Hr & Hlt & Hnil & _)].
+    + change (N.to_nat 2) with 2%nat in Hlen. cbv zeta in H.
+      change (z_digest (gz_set_r z b1)) with (z_digest z) in H. rewrite u16_mod in H.
+      assert (Hf : firstn 2 (bstream (z_r z)) = buf) by (rewrite Hs1; apply firstn_len_app'; exact Hlen).
+      assert (Hk : skipn 2 (bstream (z_r z)) = bstream b1) by (rewrite Hs1; apply skipn_len_app'; exact Hlen).
+      assert (Hl : (length (bstream (z_r z)) <? 2)%nat = false).
+      { apply Nat.ltb_ge. rewrite Hs1, app_length. lia. }
+      rewrite Hf.
+      destruct (of_le buf =? z_digest z mod 65536) eqn:Eq; inversion H; subst; clear H.
+      * split; [exact A1|]. split; [reflexivity|].
+        split; [intros _; split; [reflexivity|]; repeat split; auto|].
+        split; [intros C; exfalso; apply C; reflexivity|].
+        unfold no_bad. repeat split; discriminate.
+      * split; [exact A1|]. split; [reflexivity|].
+        split; [discriminate|].
+        split; [intros _; split; [reflexivity|right; reflexivity]|].
+        unfold no_bad. repeat split; discriminate.
+    + destruct (no_bad_noEOF e1 Hr) as [NB NE].
+      assert (H' : (gz_set_r z b1, hdr, noEOF (GR e1)) = (z', hdr', e)).
+      { destruct Hr as [->|[->| ->]]; exact H. }
+      inversion H'; subst. clear H H'.
+      split; [exact A1|]. split; [reflexivity|].
+      split; [intros C; exfalso; apply NE; exact C|].
+      split; [|exact NB]. intros _. split; [reflexivity|]. left.
+      apply Nat.ltb_lt. rewrite Hs1, Hnil, app_nil_r. exact Hlt.
+  - inversion H; subst. clear H. exists []. split; [apply adv_refl; assumption|].
+    split; [reflexivity|].
+    split; [intros _; split; reflexivity|].
+    split; [intros C; exfalso; apply C; reflexivity|].
+    unfold no_bad. repeat split; discriminate.
+Qed.
+
+(* ---------------------------------------------------------------- the spec parser, staged *)
+Lemma parse_hdr10 : forall (buf r0 : list N), length buf = 10%nat ->
+  gz_parse_header (buf ++ r0) =
+  if negb ((nthN buf 0 =? 31) && (nthN buf 1 =? 139) && (nthN buf 2 =? 8)) then HP_err CHeader
+  else parse_tail (buf ++ r0) (nthN buf 3) (of_le (firstn 4 (skipn 4 buf)))
+                  (nthN buf 8) (nthN buf 9) r0.
+Proof.
+  intros buf r0 H. rewrite parse_staged.
+  do 10 (destruct buf as [|? buf]; [discriminate H|]). destruct buf; [|discriminate H].
+  reflexivity.
+Qed.
+
+Lemma parse_short : forall s, (length s < 10)%nat -> exists c, gz_parse_header s = HP_err c.
+Proof.
+  intros s H. rewrite parse_staged. destruct s as [|x s]; [eexists; reflexivity|].
+  apply Nat.ltb_lt in H. rewrite H. eexists; reflexivity.
+Qed.
+
+Lemma p_crc_pre : forall b (pre r3 : list N) mt xfl os ex nm cm,
+  p_crc b (pre ++ r3) mt xfl os ex nm cm r3 =
+  if b then
+    if (length r3 <? 2)%nat then HP_err CUnexpectedEOF else
+    if of_le (firstn 2 r3) =? crc32 pre mod 65536
+    then HP_ok (mkgh mt xfl os ex nm cm true) (skipn 2 r3)
+    else HP_err CHeader
+  else HP_ok (mkgh mt xfl os ex nm cm false) r3.
+Proof. intros. unfold p_crc. cbv zeta. rewrite firstn_pre. reflexivity. Qed.
+
+(* ---------------------------------------------------------------- rh_bind *)
+Lemma rh_bind_ok : forall z hdr f, rh_bind (z, hdr, GR ROk) f = f z hdr.
+Proof. reflexivity. Qed.
+Lemma rh_bind_err : forall z hdr e f, gnil e = false -> rh_bind (z, hdr, e) f = (z, hdr, e).
+Proof. intros z hdr e f H. unfold rh_bind. rewrite H. reflexivity. Qed.
+
+(* ---------------------------------------------------------------- the postcondition *)
+Definition rh_post (z : gzreader) (res : rh_res) : Prop :=
+  let s := bstream (z_r z) in
+  let '(z', hdr, e) := res in
+    buf_ok (z_r z') /\
+    (exists used, s = used ++ bstream (z_r z') /\
+                  consumed (z_r z') = consumed (z_r z) + lenN used) /\
+    bsize (z_r z') = bsize (z_r z) /\ term (z_r z') = term (z_r z) /\
+    z_multistream z' = z_multistream z /\ z_err z' = z_err z /\ z_hdr z' = z_hdr z /\
+    z_size z' = z_size z /\
+    (e = GR ROk ->
+       exists h rest,
+         gz_parse_header s = HP_ok h rest /\ bstream (z_r z') = rest /\ hdr_matches hdr h /\
+         z_digest z' = 0 /\
+         z_dec z' = Some (match z_dec z with
+                          | None => newReader_on (z_r z')
+                          | Some d => dReset d (z_r z')
+                          end)) /\
+    (e <> GR ROk -> z_dec z' = z_dec z /\ forall h rest, gz_parse_header s <> HP_ok h rest) /\
+    (e = GR REOF -> s = []) /\
+    (e <> GR RStuck /\ e <> GR RPanic).
+
+Lemma post_err : forall z z' hdr e used, adv z z' used ->
+  (exists c, gz_parse_header (bstream (z_r z)) = HP_err c) ->
+  e <> GR ROk -> no_bad e -> rh_post z (z', hdr, e).
+Proof.
+  intros z z' hdr e used (A1 & A2 & A3 & A4 & A5 & A6 & A7 & A8 & A9 & A10) [c Hc] NE (N1 & N2 & N3).
+  unfold rh_post. cbv zeta.
+  split; [assumption|]. split; [exists used; split; assumption|].
+  do 6 (split; [assumption|]).
+  split; [intros C; exfalso; apply NE; exact C|].
+  split; [intros _; split; [assumption|]; intros h rest; rewrite Hc; discriminate|].
+  split; [intros C; exfalso; apply N1; exact C|].
+  split; assumption.
+Qed.
+
+Lemma post_eof : forall z z' hdr used, adv z z' used -> bstream (z_r z) = [] ->
+  rh_post z (z', hdr, GR REOF).
+Proof.
+  intros z z' hdr used (A1 & A2 & A3 & A4 & A5 & A6 & A7 & A8 & A9 & A10) Hnil.
+  unfold rh_post. cbv zeta.
+  split; [assumption|]. split; [exists used; split; assumption|].
+  do 6 (split; [assumption|]).
+  split; [discriminate|].
+  split; [intros _; split; [assumption|]; intros h rest; rewrite Hnil; discriminate|].
+  split; [intros _; assumption|].
+  split; discriminate.
+Qed.
+
+Lemma post_ok : forall z z' hdr used h, adv z z' used ->
+  gz_parse_header (bstream (z_r z)) = HP_ok h (bstream (z_r z')) -> hdr_matches hdr h ->
+  rh_post z (rh_finish z' hdr).
+Proof.
+  intros z z' hdr used h (A1 & A2 & A3 & A4 & A5 & A6 & A7 & A8 & A9 & A10) Hp Hm.
+  unfold rh_post, rh_finish. cbv zeta.
+  cbn [z_r z_multistream z_err z_hdr z_size z_dec z_digest gz_set_dec gz_set_digest].
+  split; [assumption|]. split; [exists used; split; assumption|].
+  do 6 (split; [assumption|]).
+  split.
+  - intros _. exists h, (bstream (z_r z')). repeat (split; [auto|]). rewrite A10. reflexivity.
+  - split; [intros C; exfalso; apply C; reflexivity|].
+    split; [discriminate|]. split; discriminate.
+Qed.
+
+(* ---------------------------------------------------------------- readHeader *)
+Lemma gzReadHeader_post :
+  bReadByte_spec_statement -> ioReadFull_spec_statement -> crc32_update_app_statement ->
+  forall z, buf_ok (z_r z) -> bytes_ok (bstream (z_r z)) -> rh_post z (gzReadHeader z).
+Proof.
+  intros HB HRF HCRC z Hok Hby.
+  unfold gzReadHeader.
+  destruct (ioReadFull (z_r z) 10) as [[buf e0] b0] eqn:E0.
+  destruct (rf_adv HRF z 10 Hok eq_refl _ _ _ E0) as (A0 & Hr0).
+  assert (Hs0 : bstream (z_r z) = buf ++ bstream b0) by apply A0.
+  destruct Hr0 as [[-> Hlen]|(Hr & Hlt & Hnil & Heof)].
+  2:{ (* the fixed part is short *)
+    change (N.to_nat 10) with 10%nat in Hlt.
+    assert (Hsb : bstream (z_r z) = buf) by (rewrite Hs0, Hnil; apply app_nil_r).
+    destruct Hr as [->|[->| ->]]; cbv zeta.
+    - apply (post_eof z _ _ buf A0). rewrite Hsb. apply Heof. reflexivity.
+    - apply (post_err z _ _ _ buf A0).
+      + rewrite Hsb. apply parse_short. exact Hlt.
+      + discriminate.
+      + unfold no_bad. repeat split; discriminate.
+    - apply (post_err z _ _ _ buf A0).
+      + rewrite Hsb. apply parse_short. exact Hlt.
+      + discriminate.
+      + unfold no_bad. repeat split; discriminate. }
+  change (N.to_nat 10) with 10%nat in Hlen. cbv zeta.
+  pose proof (parse_hdr10 buf (bstream b0) Hlen) as Hparse. rewrite <- Hs0 in Hparse.
+  destruct (negb ((nthN buf 0 =? 31) && (nthN buf 1 =? 139) && (nthN buf 2 =? 8))) eqn:Emagic.
+  { apply (post_err z _ _ _ buf A0).
+    - rewrite Hparse. eexists; reflexivity.
+    - discriminate.
+    - unfold no_bad. repeat split; discriminate. }
+  set (flg := nthN buf 3) in *.
+  set (mt := of_le (firstn 4 (skipn 4 buf))) in *.
+  set (xfl := nthN buf 8) in *. set (os := nthN buf 9) in *.
+  set (hdr1 := mkHdr [] None mt [] os).
+  set (z1 := gz_set_digest (gz_set_r z b0) (crc32 buf)).
+  assert (A0' : adv z z1 buf) by (apply adv_set_digest; exact A0).
+  assert (Hd1 : z_digest z1 = crc32 buf) by reflexivity.
+  assert (Hb1 : bstream b0 = bstream (z_r z1)) by reflexivity.
+  clearbody z1. rewrite Hb1 in Hparse, Hs0.
+  assert (Hby1 : bytes_ok (bstream (z_r z1))).
+  { rewrite Hs0 in Hby. apply Forall_app in Hby. apply Hby. }
+  clear E0 Hb1 A0 Hby.
+  unfold parse_tail in Hparse.
+  (* FEXTRA *)
+  destruct (rh_extra flg z1 hdr1) as [[z2 hdr2] e2] eqn:E2.
+  destruct (rh_extra_spec HRF HCRC flg z1 hdr1 (proj1 A0') Hby1 _ _ _ E2) as (u1 & A1 & S1 & F1 & NB1).
+  pose proof (adv_trans _ _ _ _ _ A0' A1) as A01.
+  destruct (gnil e2) eqn:G2.
+  2:{ rewrite !rh_bind_err by exact G2.
+      assert (NE : e2 <> GR ROk) by (intros ->; discriminate).
+      apply (post_err z _ _ _ _ A01); [|exact NE|exact NB1].
+      rewrite Hparse. destruct (F1 NE) as [c ->]. eexists; reflexivity. }
+  apply gnil_true in G2. subst e2. rewrite rh_bind_ok.
+  destruct (S1 eq_refl) as (D2 & extra & P1 & Hh2 & Hx2). clear S1 F1 NB1 E2.
+  rewrite P1 in Hparse.
+  (* FNAME *)
+  rewrite rh_name_str.
+  destruct (rh_str (N.testbit flg 3) h_set_name z2 hdr2) as [[z3 hdr3] e3] eqn:E3.
+  destruct (rh_str_spec HB _ _ z2 hdr2 (proj1 A1) _ _ _ E3) as (u2 & A2 & S2 & F2 & NB2).
+  pose proof (adv_trans _ _ _ _ _ A01 A2) as A02.
+  destruct (gnil e3) eqn:G3.
+  2:{ rewrite !rh_bind_err by exact G3.
+      assert (NE : e3 <> GR ROk) by (intros ->; discriminate).
+      apply (post_err z _ _ _ _ A02); [|exact NE|exact NB2].
+      rewrite Hparse. destruct (F2 NE) as [c ->]. eexists; reflexivity. }
+  apply gnil_true in G3. subst e3. rewrite rh_bind_ok.
+  destruct (S2 eq_refl) as (D3 & name & P2 & Hh3 & Hx3). clear S2 F2 NB2 E3.
+  rewrite P2 in Hparse.
+  (* FCOMMENT *)
+  rewrite rh_comment_str.
+  destruct (rh_str (N.testbit flg 4) h_set_comment z3 hdr3) as [[z4 hdr4] e4] eqn:E4.
+  destruct (rh_str_spec HB _ _ z3 hdr3 (proj1 A2) _ _ _ E4) as (u3 & A3 & S3 & F3 & NB3).
+  pose proof (adv_trans _ _ _ _ _ A02 A3) as A03.
+  destruct (gnil e4) eqn:G4.
+  2:{ rewrite !rh_bind_err by exact G4.
+      assert (NE : e4 <> GR ROk) by (intros ->; discriminate).
+      apply (post_err z _ _ _ _ A03); [|exact NE|exact NB3].
+      rewrite Hparse. destruct (F3 NE) as [c ->]. eexists; reflexivity. }
+  apply gnil_true in G4. subst e4. rewrite rh_bind_ok.
+  destruct (S3 eq_refl) as (D4 & comment & P3 & Hh4 & Hx4). clear S3 F3 NB3 E4.
+  rewrite P3 in Hparse.
+  (* the digest so far is the CRC-32 of everything consumed *)
+  assert (Hs3 : bstream (z_r z) = (((buf ++ u1) ++ u2) ++ u3) ++ bstream (z_r z4)) by apply A03.
+  assert (Hdig : z_digest z4 = crc32 (((buf ++ u1) ++ u2) ++ u3)).
+  { rewrite D4, D3, D2, Hd1. unfold crc32. rewrite !HCRC, !app_assoc. reflexivity. }
+  rewrite Hs3 in Hparse at 2. rewrite p_crc_pre in Hparse. rewrite <- Hdig in Hparse.
+  (* FHCRC *)
+  destruct (rh_hcrc flg z4 hdr4) as [[z5 hdr5] e5] eqn:E5.
+  destruct (rh_hcrc_spec HRF flg z4 hdr4 (proj1 A3) _ _ _ E5) as (u4 & A4 & D5 & S4 & F4 & NB4).
+  pose proof (adv_trans _ _ _ _ _ A03 A4) as A04.
+  destruct (gnil e5) eqn:G5.
+  2:{ rewrite !rh_bind_err by exact G5.
+      assert (NE : e5 <> GR ROk) by (intros ->; discriminate).
+      apply (post_err z _ _ _ _ A04); [|exact NE|exact NB4].
+      rewrite Hparse. destruct (F4 NE) as [-> [->|Hc]]; [eexists; reflexivity|].
+      destruct (length (bstream (z_r z4)) <? 2)%nat; [eexists; reflexivity|].
+      rewrite Hc. eexists; reflexivity. }
+  apply gnil_true in G5. subst e5. rewrite rh_bind_ok.
+  destruct (S4 eq_refl) as (-> & S5). clear S4 F4 NB4 E5.
+  (* the Header *)
+  assert (Hm : forall hc, hdr_matches hdr4 (mkgh mt xfl os extra name comment hc)).
+  { intros hc. subst hdr4 hdr3 hdr2. unfold hdr_matches, hdr1.
+    destruct (N.testbit flg 2); [|rewrite (Hx2 eq_refl)];
+    (destruct (N.testbit flg 3); [|rewrite (Hx3 eq_refl)]);
+    (destruct (N.testbit flg 4); [|rewrite (Hx4 eq_refl)]);
+    cbn; repeat split; reflexivity. }
+  destruct (N.testbit flg 1).
+  - destruct S5 as (L1 & L2 & L3). rewrite L1, L2 in Hparse. rewrite <- L3 in Hparse.
+    apply (post_ok z z5 hdr4 _ _ A04 Hparse (Hm true)).
+  - rewrite <- S5 in Hparse.
+    apply (post_ok z z5 hdr4 _ _ A04 Hparse (Hm false)).
+Qed.
+
+Theorem gzReadHeader_spec_from :
+  bReadByte_spec_statement -> ioReadFull_spec_statement -> crc32_update_app_statement ->
+  gzReadHeader_spec_statement.
+Proof.
+  intros HB HRF HCRC z Hok Hby.
+  pose proof (gzReadHeader_post HB HRF HCRC z Hok Hby) as M.
+  destruct (gzReadHeader z) as [[z' hdr] e]. exact M.
+Qed.
+
+Print Assumptions gzReadHeader_spec_from.
